@@ -376,6 +376,7 @@ for _p in ('C14', 'C10', 'C01', 'C12', 'C02'):
     PROPS[_p]['native'] = ['pcw_n']
 PROPS['C02']['native'] = ['pw_n', 'blob_n', 'pcw_n']
 PROPS['C10']['native'] = ['pcw_n', 'ext_n']
+PROPS['C16']['native'] = ['pw_n', 'blob_n', 'pcw_n']
 for _p in ('C17', 'C09', 'C03', 'C05', 'C07', 'C08'):
     PROPS[_p]['native'] = ['rd_n']
 
